@@ -1,25 +1,92 @@
 package inmem
 
-import "github.com/acquirecloud/golibs/kvs"
+import (
+	"reflect"
+
+	"github.com/acquirecloud/golibs/kvs"
+	"github.com/acquirecloud/golibs/zsimrt"
+)
 
 // Test-only accessors (scratch copy). All are raw reads without locking and
-// without lazy expiry: call them at quiescence only.
+// without lazy expiry: call them at quiescence only. They find what they need by
+// reflection (any map keyed by string whose values are, point to or contain a
+// kvs.Record is a record table), so that they survive a change of the storage's
+// internal layout.
+
+var recordType = reflect.TypeOf(kvs.Record{})
 
 // VerifPeek returns the stored record as is.
 func VerifPeek(s kvs.Storage, key string) (kvs.Record, bool) {
-	r, ok := s.(*service).recs[key]
-	return r, ok
+	var out kvs.Record
+	found := false
+	zsimrt.WalkMaps(s, func(m reflect.Value) {
+		if found || m.Type().Key().Kind() != reflect.String {
+			return
+		}
+		v := m.MapIndex(reflect.ValueOf(key).Convert(m.Type().Key()))
+		if !v.IsValid() {
+			return
+		}
+		if r, ok := zsimrt.FindTyped(v, recordType); ok {
+			// copy field by field: v may carry reflect's read-only flag
+			out = kvs.Record{Key: r.Field(0).String()}
+			cp := reflect.New(recordType).Elem()
+			for i := 0; i < r.NumField(); i++ {
+				f := r.Field(i)
+				switch f.Kind() {
+				case reflect.String:
+					cp.Field(i).SetString(f.String())
+				case reflect.Slice:
+					if !f.IsNil() {
+						cp.Field(i).SetBytes(append([]byte(nil), f.Bytes()...))
+					}
+				case reflect.Ptr:
+					if !f.IsNil() {
+						cp.Field(i).Set(reflect.NewAt(f.Type().Elem(), f.UnsafePointer()))
+					}
+				}
+			}
+			out = cp.Interface().(kvs.Record)
+			found = true
+		}
+	})
+	return out, found
 }
 
-// VerifWaiters returns the size of the waiter table and the sum of the
-// registered waiter counts.
+// VerifWaiters returns the size of the waiter table (maps keyed by string whose
+// values are or point to a struct that holds a channel) and the sum of the
+// registered waiter counts (an integer field called "waiters", else one per entry).
 func VerifWaiters(s kvs.Storage) (int, int) {
-	n := 0
-	for _, w := range s.(*service).verChange {
-		n += w.waiters
-	}
-	return len(s.(*service).verChange), n
+	entries, registered := 0, 0
+	zsimrt.WalkMaps(s, func(m reflect.Value) {
+		if m.Type().Key().Kind() != reflect.String {
+			return
+		}
+		et := m.Type().Elem()
+		for et.Kind() == reflect.Ptr {
+			et = et.Elem()
+		}
+		if et.Kind() != reflect.Struct || et == recordType {
+			return
+		}
+		hasChan := false
+		for i := 0; i < et.NumField(); i++ {
+			if et.Field(i).Type.Kind() == reflect.Chan {
+				hasChan = true
+			}
+		}
+		if !hasChan {
+			return
+		}
+		it := m.MapRange()
+		for it.Next() {
+			entries++
+			if n, ok := zsimrt.IntField(it.Value(), "waiters"); ok {
+				registered += n
+			} else {
+				registered++
+			}
+		}
+	})
+	return entries, registered
 }
-
-// VerifKeys returns the number of stored records (expired or not).
-func VerifKeys(s kvs.Storage) int { return len(s.(*service).recs) }
